@@ -95,6 +95,8 @@ func c03Run(f []string) string {
 		return c03AnalyzeSpecRun(f)
 	case "tbl":
 		return c03TblRun(f)
+	case "sbv":
+		return c03SbvRun(f)
 	case "cmd":
 		return c03CmdRun(f)
 	case "csv":
@@ -277,6 +279,14 @@ func c03Gen(r *Rand, tier string) []string {
 	for i := 0; i < nTbl; i++ {
 		out = append(out, c03TblCase(r))
 	}
+	nSbv := 400
+	if tier == "thorough" {
+		nSbv = 8000
+	}
+	for i := 0; i < nSbv; i++ {
+		out = append(out, c03SbvCase(r))
+	}
+	c03SbvExhaustive(&out)
 	if tier == "thorough" {
 		c03TblExhaustive(5, &out)
 	} else {
@@ -337,6 +347,8 @@ func c03Stats(cases []string) map[string]int {
 			st["op.analyzeSpec"]++
 		case "tbl":
 			c03TblStats(f, st)
+		case "sbv":
+			c03SbvStats(f, st)
 		case "cmd":
 			c03CmdStats(f, st)
 		case "csv":
@@ -402,5 +414,5 @@ var c03Corpus = []string{
 }
 
 func init() {
-	Register("C03", &Prop{Gen: c03Gen, Run: c03Run, Stats: c03Stats, Corpus: append(append(append(append(append([]string{}, c03Corpus...), c03ReduceCorpus...), c03AnalyzeCorpus...), c03TblCorpus...), c03CmdCorpus...)})
+	Register("C03", &Prop{Gen: c03Gen, Run: c03Run, Stats: c03Stats, Corpus: append(append(append(append(append(append([]string{}, c03Corpus...), c03ReduceCorpus...), c03AnalyzeCorpus...), c03TblCorpus...), c03CmdCorpus...), c03SbvCorpus...)})
 }
